@@ -319,6 +319,7 @@ impl Interpolation {
         let (display_impl, builder_display) = if interpolate_display {
             let display_impl = Self::display_impl(
                 key,
+                key_path,
                 &ident,
                 &display_struct_ident,
                 enum_ident,
@@ -565,6 +566,7 @@ impl Interpolation {
     #[allow(clippy::too_many_arguments)]
     fn display_impl(
         key: &Key,
+        key_path: &KeyPath,
         ident: &syn::Ident,
         display_struct_ident: &syn::Ident,
         enum_ident: &syn::Ident,
@@ -659,6 +661,24 @@ impl Interpolation {
             }
         };
 
+        // with `show_keys_only` the string flavours show the key too, like the view (`into_view_impl`).
+        let fmt_body = if cfg!(feature = "show_keys_only") {
+            let key = key_path.to_string_with_key(key);
+            quote! {
+                let _ = self;
+                ::core::fmt::Formatter::write_str(__formatter, #key)
+            }
+        } else {
+            quote! {
+                #destructure
+                match self.0 {
+                    #(
+                        #locales_impls,
+                    )*
+                }
+            }
+        };
+
         quote! {
 
             #translations_holder_enum
@@ -676,12 +696,7 @@ impl Interpolation {
             #[allow(non_camel_case_types)]
             impl<#(#left_generics,)*> ::core::fmt::Display for #display_struct_ident<#(#right_generics,)*> {
                 fn fmt(&self, __formatter: &mut ::core::fmt::Formatter<'_>) -> core::fmt::Result {
-                    #destructure
-                    match self.0 {
-                        #(
-                            #locales_impls,
-                        )*
-                    }
+                    #fmt_body
                 }
             }
 
